@@ -812,6 +812,11 @@ def norm_pred(t, truth, cons):
     if op == 'ne':
         op, truth = 'eq', not truth
     if op == 'eq':
+        # (x - y) == z with an exact subtraction  <=>  x == y + z   (`n.checked_sub(m) == Some(32)` for `n == m + 32`)
+        for u, w in ((a, b), (b, a)):
+            if u[0] == 'op' and u[1] == 'Sub' and u[4] is None and vs_of(u, cons).lo >= 0:
+                a, b = u[2], mk_op('Add', u[3], w, None, cons)
+                break
         # (x ^ y) == c   <=>   x == y ^ c : compare bit by bit (c constant)
         for u, w in ((a, b), (b, a)):
             if u[0] == 'op' and u[1] == 'BitXor' and vs_of(w, cons).single() and vs_of(w, cons).lo >= 0:
